@@ -62,6 +62,8 @@ regenerated lock table; the lines handled here connect the harness to that table
   `conc nodetablecheck => ok`: the whole node table is well bracketed and its order graph certified
   (names the offending entries / prints the graph otherwise);
   `conc node round=… => ok`: the run's verdict (no stall, no panic, pool consistent with the chain);
+* `conc torn round=… overtakes=… => ok`, `conc hdrmono round=… light=… => ok`: runs of binary `conctorn`
+  (increment 2): verdicts of the torn-read history and of the lighter-fork header sync;
 * the final (head, unspent set) of a concurrent run is compared by the `chain` domain
   (`chain obs <twin> => …`), not here. -/
 namespace GV.Drv.ConcD
@@ -136,6 +138,19 @@ def handle (st : St) (args : List String) (impl : String) : St × Verdict :=
       match threads.mapM nodeProgOf with
       | some progs => ({ st with sims := st.sims + 1 }, cmpModel (nodeSimAll progs seed) impl)
       | none => (st, .diff "entry-not-in-node-table")
+    | _, _ => (st, .unknown)
+  | "torn" :: rest =>
+    -- run `torn` (conctorn): same commitments at different MMR positions on two forks overtaking each other,
+    -- readers polling; the answer demanded by the property is `ok` (every answer is the answer in some
+    -- committed state); the ops polled are checked against the table by `conc views` lines and by
+    -- Props/C17Lookups.polled_readers_one_hold_nothing_outside
+    match kvArg rest "round", kvArg rest "overtakes" with
+    | some _, some _ => (st, cmpModel "ok" impl)
+    | _, _ => (st, .unknown)
+  | "hdrmono" :: rest =>
+    -- run `hdrmono`: header-sync chunks of a lighter fork racing readers; header head work monotone
+    match kvArg rest "round", kvArg rest "light" with
+    | some _, some _ => (st, cmpModel "ok" impl)
     | _, _ => (st, .unknown)
   | "node" :: rest =>
     match kvArg rest "round", kvArg rest "threads" with
